@@ -97,14 +97,14 @@ def _history_query(prefix, K, backend, extra, addrs, covers=None, **kw):
                  defs=D(VF_K=K, CB_ADDRS=addrs) + list(extra), unwind=CB_UNW, unwindset={'harness.1': K + 1}, leak=True,
                  idn=None if backend == 'idn2' else backend,
                  covers=covers or ['end', 'two-validations', 'reinit-after-use', 'accept-after-earlier-validation'],
-                 optional_covers=['idn-fault-after-earlier-validation', 'failed-setup-after-success', 'reinit-after-use'],
+                 optional_covers=['idn-fault-after-earlier-validation', 'failed-setup-after-success', 'reinit-after-use', 'failed-setup-after-validation'],
                  bounds={'operations': K, 'address_pool': addrs, 'settings': 'any int / bool',
                          'callback results': 'uninterpreted function of (mode,tld_check,address)'},
                  functions=API_FN, note='callbacks uninterpreted; compared with a fresh object after every validation', **kw)
 
 
 def c08_queries(tier):
-    qs = [single_query('C08')]
+    qs = [single_query('C08'), utf8dom_query('C08', 8, 8)]
     N = 16 if tier == 'quick' else 40
     qs += [email_query('C08', m, N, covers=['end', 'accepted-hostname', 'accepted-literal']) for m in range(4)]
     return qs
@@ -116,7 +116,9 @@ def c13_queries(tier):
 
 
 def c15_queries(tier):
-    qs = [single_query('C15')]
+    K = 4 if tier == 'quick' else 6
+    qs = [single_query('C15'), history_query('C15', K, covers=['end', 'two-validations', 'failed-setup-after-validation'], timeout=3000),
+          tld_query('C15', 2, 63)]
     return qs
 
 
@@ -281,7 +283,7 @@ def c19_queries(tier):
     return [utf8dom_query('C19', N, N),
             email_query('C19', 3, 16 if tier == 'quick' else 40, covers=['end', 'idn-error', 'accepted-hostname']),
             single_query('C19'),
-            history_query('C19', K, extra=['-DCB_IDN_FAULT_ONLY'], covers_override=None, timeout=3000)]
+            history_query('C19', K, covers_override=None, timeout=3000)]
 
 
 def c16_queries(tier):
